@@ -13,6 +13,11 @@ CLAIMED = {
    note='Trusted: Coq kernel (vm_compute for the finite checks); the reifier (prints what the imported module holds); extraction + driver; harness transliteration of the release-id regex (Unicode \\d); CPython dict/list semantics. No axioms.',
    technique='Coq proof (induction over record lists; kernel evaluation over reified tables) + reifier + extracted-model differential correspondence',
    design='3/C08'),
+ 'C06': dict(
+   text='Machine-checked finite proof: on every run the reifier evaluates get_packets and get_id of the working tree on all 369 known versions and emits them as Coq data; the kernel then evaluates (vm_compute, lifted by forallb_forall) that for all 250 supported versions x 8 state/direction tables every member class has a non-negative integer id and ids are pairwise distinct, except exactly the listed, still-reproducing known findings (each proved real by C06_refuted_known_findings). The consequence for decoding is universal: for every permutation of the member set (any set iteration order) the decoder table maps id(c) to c and nothing else (proved by induction via Permutation). The real reactors are additionally rebuilt under several hash seeds. 9 supported snapshot versions violate the property today and are recorded as open known findings.',
+   note='Trusted: Coq kernel (vm_compute); the reifier (evaluates the table functions, determinism checked by double evaluation); harness. No axioms. Remaining 119 known-but-unsupported versions are reported in the evidence, not asserted.',
+   technique='reifier (evaluation of the table functions on the full finite domain) + kernel-evaluated finite theorem + universal permutation lemma',
+   design='3/C06'),
 }
 NOT_YET = 'check not built yet in this development (see DESIGN.md section 6 build order); not claimed'
 
